@@ -49,7 +49,9 @@ impl File {
     #[verifier::external_body] pub fn from_raw_fd(fd: RawFd) -> (r: File) ensures r.sfd() == fd { unimplemented!() }
 }
 pub uninterp spec fn host_size(fd: i32) -> i64;            // st_size of the file behind the descriptor (fstat)
-pub uninterp spec fn host_append(fd: i32) -> bool;         // the descriptor's O_APPEND status flag at the time of the write of this request
+// the descriptors' O_APPEND status flags are STATE (fcntl(F_SETFL) changes them): a ghost token threaded through write / check_fd_flags (rule R23)
+pub tracked struct HostSt { pub ghost append: Map<int, bool> }
+impl HostSt { pub open spec fn app(&self, fd: i32) -> bool { self.append[fd as int] } }
 // the capabilities: what a request may do to the host
 pub uninterp spec fn host_write_ok(append: bool, size_now: u64, offset: u64, count: u64) -> bool;
 pub uninterp spec fn host_falloc_ok(size_now: i64, mode: i32, offset: i64, length: i64) -> bool;   // fallocate(2) takes signed off_t values
@@ -70,8 +72,9 @@ pub mod sys {
     #[verifier::external_body] pub fn fchownat(dirfd: i32, path: *const i8, uid: u32, gid: u32, flags: i32) -> (r: i32) { unimplemented!() }
     #[verifier::external_body] pub fn futimens(fd: i32, times: *const libc::timespec) -> (r: i32) { unimplemented!() }
     #[verifier::external_body] pub fn utimensat(dirfd: i32, path: *const i8, times: *const libc::timespec, flags: i32) -> (r: i32) { unimplemented!() }
-    #[verifier::external_body] pub fn fcntl(fd: i32, cmd: i32, arg: u32) -> (r: i32)
-        ensures cmd == 4 && r == 0 ==> host_append(fd) == (arg & 0o2000u32 != 0)
+    #[verifier::external_body] pub fn fcntl(fd: i32, cmd: i32, arg: u32, Tracked(hs): Tracked<&mut HostSt>) -> (r: i32)
+        ensures cmd == 4 && r == 0 ==> final(hs).append == old(hs).append.insert(fd as int, arg & 0o2000u32 != 0),
+                !(cmd == 4 && r == 0) ==> final(hs).append == old(hs).append,
     { unimplemented!() }
 }
 // stat_fd(fd, None) = fstat of the descriptor itself
@@ -87,15 +90,15 @@ impl HandleData {
     #[verifier::external_body] pub fn borrow_fd(&self) -> (r: BorrowedFd<'_>) ensures r.sfd() == self.hfd() { unimplemented!() }
     // invariant of HandleData (established by do_open/create and kept by check_fd_flags): the descriptor is in append mode only if the recorded flags say so
     // (the recorded word is the client's; get_writeback_open_flags may have CLEARED O_APPEND on the descriptor, never set it)
-    #[verifier::external_body] pub fn get_flags(&self) -> (r: u32) ensures host_append(self.hfd()) ==> r & 0o2000u32 != 0 { unimplemented!() }
+    #[verifier::external_body] pub fn get_flags(&self, Tracked(hs): Tracked<&mut HostSt>) -> (r: u32) ensures final(hs).append == old(hs).append, old(hs).app(self.hfd()) ==> r & 0o2000u32 != 0 { unimplemented!() }
     #[verifier::external_body] pub fn set_flags(&self, flags: u32) { unimplemented!() }
 }
 #[verifier::external_body] pub struct CapFsetid { _p: u8 }
 #[verifier::external_body] pub fn drop_cap_fsetid() -> (r: io::Result<Option<CapFsetid>>) { unimplemented!() }
 // ---- the data streams of WRITE: read_to() takes the request payload and pwrite()s it to the file at `off`
 pub trait ZeroCopyReader {
-    fn read_to(&mut self, f: &mut File, count: usize, off: u64) -> (r: io::Result<usize>)
-        requires host_write_ok(host_append(old(f).sfd()), host_size(old(f).sfd()) as u64, off, count as u64), // [hostwrite]
+    fn read_to(&mut self, f: &mut File, count: usize, off: u64, Tracked(hs): Tracked<&mut HostSt>) -> (r: io::Result<usize>)
+        requires host_write_ok(old(hs).app(old(f).sfd()), host_size(old(f).sfd()) as u64, off, count as u64), // [hostwrite] judged with the descriptor's mode AT THE TIME of the write
     ;
 }
 pub struct InodeData { pub inode: Inode, pub mode: u32 }
@@ -155,6 +158,16 @@ pub open spec fn c18_falloc(sealed: bool, size_now: i64, mode: i32, offset: i64,
 '''
 
 
+TOK = dict(param='Tracked(hs): Tracked<&mut HostSt>', arg='Tracked(hs)')
+
+
+def tokfn(fn, callees=(), path_callees=()):
+    """R23: thread the ghost host-state token through fn and the listed callees"""
+    fn.rules = tuple(getattr(fn, 'rules', ()) or ()) + ('R23',)
+    fn.ghost_token = dict(TOK, callees=list(callees), path_callees=list(path_callees))
+    return fn
+
+
 def unit(root='/repo'):
     W_REQ = ['forall|a: bool, s: u64, o: u64, c: u64| #[trigger] host_write_ok(a, s, o, c) <==> c18_write(self.sealed(), a, s, o, c) // [C18.write.cap] on a sealed export only writes that end within the current size, never through an append-mode descriptor']
     items = [
@@ -171,14 +184,15 @@ def unit(root='/repo'):
             assert(forall|f: i32| #![auto] ((f & !3i32) | 2i32) & 0o1000i32 == f & 0o1000i32) by (bit_vector);
             assert(forall|f: i32| #![auto] (f & !0o2000i32) & 0o1000i32 == f & 0o1000i32) by (bit_vector);
         }''')]),
-            Fn(PTS, IMPL, 'check_fd_flags', props=['C18'], ret_name='res',
+            tokfn(Fn(PTS, IMPL, 'check_fd_flags', props=['C18'], ret_name='res',
                body_resub=[(LIBC_CALLS, r'sys::\1(', SYS)],
                # after a successful check the descriptor is in append mode only if THIS request's flags say so
-               ensures=['res is Ok && fd == data.hfd() ==> (host_append(fd) ==> flags & 0o2000u32 != 0) // [C18.fdflags.append]']),
-            Fn(PTS, FSIMPL, 'write', props=['C18'], ret_name='res', canary=True,
+               ensures=['res is Ok && fd == data.hfd() ==> (final(hs).app(fd) ==> flags & 0o2000u32 != 0) // [C18.fdflags.append] afterwards the descriptor is in append mode only if THIS request\'s flags say so',
+                        'forall|k: int| k != fd as int ==> final(hs).append[k] == #[trigger] old(hs).append[k]']), callees=['get_flags'], path_callees=['fcntl']),
+            tokfn(Fn(PTS, FSIMPL, 'write', props=['C18'], ret_name='res', canary=True,
                sig_subst=[('fn write(', 'fn write<R: ZeroCopyReader>('), ('r: &mut dyn ZeroCopyReader', 'r: &mut R')],
                body_resub=MD,
-               requires=W_REQ),
+               requires=W_REQ), callees=['check_fd_flags', 'read_to', 'get_flags']),
             Fn(PTS, FSIMPL, 'fallocate', props=['C18'], ret_name='res', canary=True,
                body_resub=[(LIBC_CALLS, r'sys::\1(', SYS)],
                requires=['forall|s: i64, m: i32, o: i64, l: i64| #[trigger] host_falloc_ok(s, m, o, l) <==> c18_falloc(self.sealed(), s, m, o, l) // [C18.fallocate.cap] on a sealed export only size-keeping modes within the current size']),
